@@ -53,7 +53,29 @@ func (l *ledger) observe(c *Client, m *RecvMsg) {
 		}
 	}
 	switch x := m.Msg.(type) {
+	case *hagallpb.EntityComponentTypeSubscribeResponse:
+		if req, ok := c.own[m.ReqID].(*hagallpb.EntityComponentTypeSubscribeRequest); ok {
+			if c.subs == nil {
+				c.subs = map[uint32]bool{}
+			}
+			c.subs[req.EntityComponentTypeId] = true
+		}
+	case *hagallpb.EntityComponentTypeUnsubscribeResponse:
+		if req, ok := c.own[m.ReqID].(*hagallpb.EntityComponentTypeUnsubscribeRequest); ok {
+			delete(c.subs, req.EntityComponentTypeId)
+		}
+	case *hagallpb.EntityComponentUpdateBroadcast:
+		// the answers to its own subscribe / unsubscribe requests reach a client in order with the
+		// notifications: an update notification for a type it is not (or no longer) subscribed
+		// to, by its own acknowledged requests, must not arrive
+		t := x.GetEntityComponent().GetEntityComponentTypeId()
+		if !c.subs[t] && c.View.Joined {
+			l.v("C13", "notify-unsubscribed", "%s received an update notification for component type %d, to which it is not subscribed (after its unsubscribe was answered, or never subscribed)", c.Label, t)
+		}
+	}
+	switch x := m.Msg.(type) {
 	case *hagallpb.ParticipantJoinResponse:
+		c.subs = nil
 		ps := sub(l.pids, x.SessionUuid)
 		if who, dup := ps[x.ParticipantId]; dup || x.ParticipantId == 0 {
 			l.v("C10", "participant-id-reissued", "participant id %d of session %s was issued to %s and again to %s", x.ParticipantId, x.SessionUuid, who, c.Label)
